@@ -54,6 +54,19 @@ func DataCfgs() []DataCfg {
 	c.CIDLen, s.CIDLen, c.CIDTag, s.CIDTag = 6, 0, 3, 9
 	c.PadMode, s.PadMode = 2, 1
 	add("12-psk-ccm8-cid-c-pad", c, s)
+	c, s = pskPair(0xc0a4)
+	c.CIDLen, s.CIDLen, c.CIDTag, s.CIDTag = 4, 4, 5, 6
+	add("12-psk-ccm-cid4", c, s)
+	c, s = pskPair(suitePSKCCM8)
+	c.CIDLen, s.CIDLen, c.CIDTag, s.CIDTag = 1, 8, 5, 6
+	add("12-psk-ccm8-cid1-8", c, s)
+	c, s = pskPair(suitePSKChaCha)
+	c.CIDLen, s.CIDLen, c.CIDTag, s.CIDTag = 16, 3, 5, 6
+	c.PadMode = 1
+	add("12-psk-chacha-cid16-3", c, s)
+	c, s = certPair12(suiteECDSACBC, "srv-ecdsa")
+	c.CIDLen, s.CIDLen, c.CIDTag, s.CIDTag = 2, 2, 5, 6
+	add("12-ecdsa-cbc-sha1-cid", c, s)
 	c, s = pair13(suite13AES128)
 	add("13-aes128", c, s)
 	c, s = pair13(suite13ChaCha)
